@@ -59,6 +59,9 @@ func loadedFrom(v ssa.Value, typ, field string) *ssa.FieldAddr {
 func FieldAccesses(funcs []*ssa.Function, typ, field string) []Access {
 	var out []Access
 	for _, fn := range funcs {
+		if Transparent(fn) {
+			continue // seen through its callers
+		}
 		Instrs(fn, func(in ssa.Instruction) {
 			switch x := in.(type) {
 			case *ssa.Store:
@@ -120,6 +123,9 @@ func FieldAccesses(funcs []*ssa.Function, typ, field string) []Access {
 func FieldReads(funcs []*ssa.Function, typ, field string) []ssa.Instruction {
 	var out []ssa.Instruction
 	for _, fn := range funcs {
+		if Transparent(fn) {
+			continue
+		}
 		Instrs(fn, func(in ssa.Instruction) {
 			u, ok := in.(*ssa.UnOp)
 			if !ok || u.Op != token.MUL {
